@@ -30,6 +30,7 @@ import CtyModel.Lemmas.OpsDerived
 import CtyModel.Lemmas.OpsSets
 import CtyModel.Lemmas.OpsMul
 import CtyModel.Lemmas.d01Mul
+import CtyModel.Lemmas.d01Side
 namespace CtyModel
 namespace C01
 open Value
@@ -639,6 +640,32 @@ theorem mul_zero_exit_examples :
     -- but not with a number-typed unknown: the corner −∞ · 0 panics and is caught
     Value.mul ⟨.number, .unk .unref⟩ ⟨.number, .unk (.num .u (some ⟨Num.ofInt 0, true⟩) (some ⟨Num.ofInt 0, true⟩))⟩
       = .ok unkNumNotNull := ⟨by rfl, by rfl, by rfl, by rfl, by rfl⟩
+
+/-! ## The scope of the three theorems, as the driver evaluates it
+
+`D01.inScope op o₁ o₂ w₁ w₂` (CtyModel/d01Side.lean, executable, core-only) collects
+EVERY hypothesis of `sound_add_partial` / `sound_sub_partial` / `sound_mul_partial`.
+The harness asks the driver for it on every paired Add / Subtract / Multiply run
+(`judge.c01.scope`): the distribution in/out is part of the evidence, and a run that
+is in scope and fails the search predicate on the real code is reported as a
+contradiction of the theorem (never matched with a recorded finding). -/
+theorem in_scope_sound (o₁ o₂ w₁ w₂ r : Value) :
+    (D01.inScope "add" o₁ o₂ w₁ w₂ = some true → Value.add o₁ o₂ = .ok r →
+      ∃ r', Value.add w₁ w₂ = .ok r' ∧ Covers r' r = true) ∧
+    (D01.inScope "sub" o₁ o₂ w₁ w₂ = some true → Value.sub o₁ o₂ = .ok r →
+      ∃ r', Value.sub w₁ w₂ = .ok r' ∧ Covers r' r = true) ∧
+    (D01.inScope "mul" o₁ o₂ w₁ w₂ = some true → Value.mul o₁ o₂ = .ok r →
+      ∃ r', Value.mul w₁ w₂ = .ok r' ∧ Covers r' r = true) := by
+  refine ⟨?_, ?_, ?_⟩ <;> intro h ho <;>
+    simp only [D01.inScope, D01.common, Option.some.injEq, Bool.and_eq_true] at h <;>
+    obtain ⟨⟨⟨⟨⟨⟨⟨⟨k1, k2⟩, f1⟩, f2⟩, g1⟩, g2⟩, c1⟩, c2⟩, hs⟩ := h
+  · rw [D01.sideAdd_eq] at hs
+    exact sound_add_partial o₁ o₂ w₁ w₂ r k1 k2 f1 f2 g1 g2 c1 c2 hs ho
+  · rw [D01.sideSub_eq] at hs
+    exact sound_sub_partial o₁ o₂ w₁ w₂ r k1 k2 f1 f2 g1 g2 c1 c2 hs ho
+  · rw [D01.sideMul_eq] at hs
+    simp only [Bool.and_eq_true] at hs
+    exact sound_mul_partial o₁ o₂ w₁ w₂ r k1 k2 f1 f2 g1 g2 c1 c2 hs.1.1 hs.1.2 hs.2 ho
 
 /-! ## Non-vacuity -/
 example : Weaken ⟨.number, .n (Num.ofInt 5)⟩ ⟨.number, .unk (.num .f (some ⟨Num.ofInt 5, true⟩) none)⟩ :=
